@@ -56,12 +56,24 @@ func NewContextForSecuredDevice(b SecuredDevice) Context {
 	return &ctx
 }
 
+// A connection is identified by its local and remote address. The remote address
+// alone is not enough: the accessory listens on all its addresses, and connections
+// to two of them can come from the same remote ip and port.
 func (ctx *context) GetKey(c net.Conn) interface{} {
-	return c.RemoteAddr().String()
+	return connectionKey(c.LocalAddr(), c.RemoteAddr().String())
 }
 
 func (ctx *context) GetConnectionKey(r *http.Request) interface{} {
-	return r.RemoteAddr
+	local, _ := r.Context().Value(http.LocalAddrContextKey).(net.Addr)
+	return connectionKey(local, r.RemoteAddr)
+}
+
+func connectionKey(local net.Addr, remote string) string {
+	if local == nil {
+		return remote
+	}
+
+	return local.String() + "<-" + remote
 }
 
 func (ctx *context) Set(key, val interface{}) {
